@@ -26,6 +26,13 @@ real transports produce: gidgethub.HTTPException (GitHubBroken 502, BadRequest 4
 timeout of the raw session handed to gidgethub), aiohttp.ServerDisconnectedError, aiohttp.ClientResponseError (named in
 github.py's except clauses); for the Batch client only NON-transient hailtop.httpx.ClientResponseError (404/403): the real
 BatchClient retries every transient error forever inside hailtop.aiocloud Session.request, so those never surface.
+
+Re-entrant delivery (ReentryPlan): the history can also arm "during the k-th upcoming client call of class C, this event
+happens": when that call is reached the fake awaits the armed coroutine function (the harness changes ground truth there
+and runs the service's webhook / batch-callback entry point as a concurrent task, exactly what the aiohttp server does
+while an update is suspended in this very call), either BEFORE the request is served (`when='post'`: the response carries
+the post-change data) or AFTER the response was computed and the read stamps were taken (`when='pre'`: the response
+carries the pre-change data).  The call then returns -- or raises its injected fault -- as usual.
 """
 from __future__ import annotations
 
@@ -211,6 +218,69 @@ class FaultPlan:
                 self.armed.remove(f)
 
 
+class ReentryPlan:
+    """Events armed to happen INSIDE a client call.  An entry = dict(side 'gh'|'batch', cls (a call class or 'any'), skip
+    (matching calls that pass before it), when 'pre'|'post', fn (async callable(side, cls, when)), ttl (entry points of the
+    service it stays armed for)).  Calls are counted whether or not a fault makes them fail."""
+
+    def __init__(self):
+        self.armed = []
+        self.n_fired = 0
+
+    def arm(self, side, cls, skip, when, fn, ttl):
+        if side == 'gh':
+            ok = cls in GH_CLASSES + ('any',)
+        else:
+            ok = side == 'batch' and cls in BATCH_CLASSES + ('any',)
+        if not ok or skip < 0 or when not in ('pre', 'post') or ttl < 1:
+            raise HarnessBug(f'malformed re-entrant delivery {(side, cls, skip, when, ttl)!r}')
+        self.armed.append(dict(side=side, cls=cls, skip=skip, when=when, fn=fn, ttl=ttl))
+
+    def due(self, side, cls):
+        """Called by the fakes on entry to every client call: the entries that happen during this very call."""
+        out = []
+        for f in list(self.armed):
+            if f['side'] != side or f['cls'] not in ('any', cls):
+                continue
+            if f['skip'] > 0:
+                f['skip'] -= 1
+                continue
+            self.armed.remove(f)
+            out.append(f)
+        return out
+
+    async def fire(self, due, when, side, cls):
+        for f in due:
+            if f['when'] == when:
+                self.n_fired += 1
+                await f['fn'](side, cls, when)
+
+    def end_entry_point(self):
+        for f in list(self.armed):
+            f['ttl'] -= 1
+            if f['ttl'] <= 0:
+                self.armed.remove(f)
+
+
+class _During:
+    """`async with _During(plan, side, cls):` around the body of a fake client call: 'post' events land before the body
+    (the request is served from the changed ground truth), 'pre' events after it (also when the body raised a fault)."""
+
+    def __init__(self, plan, side, cls):
+        self.plan, self.side, self.cls = plan, side, cls
+        self.due = plan.due(side, cls) if plan is not None else ()
+
+    async def __aenter__(self):
+        if self.due:
+            await self.plan.fire(self.due, 'post', self.side, self.cls)
+        return self
+
+    async def __aexit__(self, et, ev, tb):
+        if self.due:
+            await self.plan.fire(self.due, 'pre', self.side, self.cls)
+        return False
+
+
 # ---------------------------------------------------------------------------------------------------------------------
 # GitHub
 
@@ -222,9 +292,11 @@ PASSING = ('SUCCESS', 'NEUTRAL')
 
 class FakeGitHub:
     def __init__(self, gidgethub_mod, *, owner='hail-is', name='hail', branch='main', ci_context='ci-test',
-                 required=('lint', 'build'), ci_required=True, filler=0, dismiss_stale=False, monitor=None, faults=None):
+                 required=('lint', 'build'), ci_required=True, filler=0, dismiss_stale=False, monitor=None, faults=None,
+                 reentry=None):
         self._gm = gidgethub_mod
         self.faults = faults
+        self.reentry = reentry
         self.owner, self.name, self.branch = owner, name, branch
         self.repo = f'{owner}/{name}'
         self.ci_context = ci_context
@@ -244,8 +316,10 @@ class FakeGitHub:
         self.n_merge_shas = 0
         # what CI has read, and when
         self.refs_read = -1
+        self.refs_attempt_t = -1  # tick at which CI last STARTED a refresh (the refs GET was sent, served or not)
         self.pulls_read = -1
         self.gql_read = {}
+        self._gql_first = {}      # PR -> tick at which the first page of the paged read in progress was served
         self.merges_since_refs_read = 0
         self.n_calls = 0
         self.call_budget = None   # set by the harness before each entry point; None = unlimited
@@ -366,19 +440,24 @@ class FakeGitHub:
     # -- the client surface ---------------------------------------------------------------------------------------------
     async def getitem(self, url, *a, **k):
         if url == f'/repos/{self.repo}/git/refs/heads/{self.branch}':
-            self._call('refs')
-            self.refs_read = self._tick()
-            self.merges_since_refs_read = 0
-            return {'ref': f'refs/heads/{self.branch}', 'object': {'sha': self.target_sha, 'type': 'commit'}}
+            self.refs_attempt_t = self._tick()
+            async with _During(self.reentry, 'gh', 'refs'):
+                self._call('refs')
+                self.refs_read = self._tick()
+                self.merges_since_refs_read = 0
+                resp = {'ref': f'refs/heads/{self.branch}', 'object': {'sha': self.target_sha, 'type': 'commit'}}
+            return resp
         raise HarnessBug(f'fake GitHub: unexpected getitem {url!r}')
 
     async def getiter(self, url, *a, **k):
         if url != f'/repos/{self.repo}/pulls?state=open&base={self.branch}':
             raise HarnessBug(f'fake GitHub: unexpected getiter {url!r}')
-        self._call('pulls')
-        self.pulls_read = self._tick()
-        for n in self.open_prs():
-            yield self._pr_json(self.prs[n])
+        async with _During(self.reentry, 'gh', 'pulls'):
+            self._call('pulls')
+            self.pulls_read = self._tick()
+            listing = [self._pr_json(self.prs[n]) for n in self.open_prs()]      # one page, computed when the request is served
+        for j in listing:
+            yield j
 
     _num_re = re.compile(r'pullRequest \(number: (\d+)\)')
     _after_re = re.compile(r'contexts \(first: (\d+)(?:, after: "([^"]*)")?\)')
@@ -386,57 +465,69 @@ class FakeGitHub:
 
     async def post(self, url, *a, data=None, **k):
         if url == '/graphql':
-            self._call('graphql')
-            q = data['query']
-            m, c, r = self._num_re.search(q), self._after_re.search(q), self._repo_re.search(q)
-            if not (m and c and r) or (r.group(1), r.group(2)) != (self.owner, self.name):
-                raise HarnessBug(f'fake GitHub: GraphQL query shape not understood: {q!r}')
-            for field in ('reviewDecision', 'statusCheckRollup', 'isRequired (pullRequestNumber', 'commits (last: 1)'):
-                if field not in q:
-                    raise HarnessBug(f'fake GitHub: GraphQL query lacks {field}')
-            n = int(m.group(1))
-            if n not in self.prs:
-                raise HarnessBug(f'fake GitHub: GraphQL for unknown PR {n}')
-            pr = self.prs[n]
-            first, after = int(c.group(1)), int(c.group(2) or 0)
-            nodes = self.contexts_for(pr['head'])
-            more = bool(nodes) and after + first < len(nodes)
-            if not more:
-                # CI "has read" the PR's review decision and rollup only once the LAST page was served: PR._update_github
-                # stores nothing before its paging loop ends, so a fault between two pages leaves its view untouched
-                self.gql_read[n] = self._tick()
-            if not nodes:
-                rollup = None
-            else:
-                page = nodes[after:after + first]
-                if more:
-                    self.paged = True
-                rollup = {'contexts': {'nodes': page, 'pageInfo': {'endCursor': str(after + len(page)), 'hasNextPage': more}}}
-            return {'data': {'repository': {'pullRequest': {
-                'reviewDecision': pr['review'],
-                'commits': {'nodes': [{'commit': {'statusCheckRollup': rollup}}]}}}}}
+            async with _During(self.reentry, 'gh', 'graphql'):
+                return self._graphql(data)
         m = re.fullmatch(rf'/repos/{re.escape(self.repo)}/statuses/([^/]+)', url)
         if m:
-            sha = m.group(1)
-            if set(data) - {'state', 'target_url', 'description', 'context'} or data.get('state') not in ('success', 'pending', 'failure', 'error'):
-                raise HarnessBug(f'fake GitHub: bad status payload {data!r}')
-            try:
-                self._call('status')
-            except Exception:      # noqa: BLE001  (injected fault: GitHub keeps showing the previous state of CI's context)
-                if data['context'] == self.ci_context:
-                    self.ci_status_lost[sha] = (data['state'].upper(), self._tick())
-                raise
-            if data['context'] == self.ci_context:
-                self.ci_status_lost.pop(sha, None)
-            self.report_status(sha, data['context'], 'status', data['state'].upper(), by='ci')
-            self.ci_status_posts.append((sha, data['context'], data['state']))
-            return {'state': data['state'], 'context': data['context']}
+            async with _During(self.reentry, 'gh', 'status'):
+                return self._post_status(m.group(1), data)
         m = re.fullmatch(rf'/repos/{re.escape(self.repo)}/issues/(\d+)/assignees', url)
         if m:
-            self._call('assignees')
-            self.assignee_posts += 1
-            return {}
+            async with _During(self.reentry, 'gh', 'assignees'):
+                self._call('assignees')
+                self.assignee_posts += 1
+                return {}
         raise HarnessBug(f'fake GitHub: unexpected post {url!r}')
+
+    def _graphql(self, data):
+        self._call('graphql')
+        q = data['query']
+        m, c, r = self._num_re.search(q), self._after_re.search(q), self._repo_re.search(q)
+        if not (m and c and r) or (r.group(1), r.group(2)) != (self.owner, self.name):
+            raise HarnessBug(f'fake GitHub: GraphQL query shape not understood: {q!r}')
+        for field in ('reviewDecision', 'statusCheckRollup', 'isRequired (pullRequestNumber', 'commits (last: 1)'):
+            if field not in q:
+                raise HarnessBug(f'fake GitHub: GraphQL query lacks {field}')
+        n = int(m.group(1))
+        if n not in self.prs:
+            raise HarnessBug(f'fake GitHub: GraphQL for unknown PR {n}')
+        pr = self.prs[n]
+        first, after = int(c.group(1)), int(c.group(2) or 0)
+        nodes = self.contexts_for(pr['head'])
+        more = bool(nodes) and after + first < len(nodes)
+        if after == 0:
+            self._gql_first[n] = self._tick()
+        if not more:
+            # CI "has read" the PR's review decision and rollup only once the LAST page was served: PR._update_github
+            # stores nothing before its paging loop ends, so a fault between two pages leaves its view untouched.  What it
+            # then holds is as old as the FIRST page (reviewDecision is taken from the first answer, each context from the
+            # page it sat on): a change that landed between two pages has not been read
+            self.gql_read[n] = self._gql_first.get(n, self._tick())
+        if not nodes:
+            rollup = None
+        else:
+            page = nodes[after:after + first]
+            if more:
+                self.paged = True
+            rollup = {'contexts': {'nodes': page, 'pageInfo': {'endCursor': str(after + len(page)), 'hasNextPage': more}}}
+        return {'data': {'repository': {'pullRequest': {
+            'reviewDecision': pr['review'],
+            'commits': {'nodes': [{'commit': {'statusCheckRollup': rollup}}]}}}}}
+
+    def _post_status(self, sha, data):
+        if set(data) - {'state', 'target_url', 'description', 'context'} or data.get('state') not in ('success', 'pending', 'failure', 'error'):
+            raise HarnessBug(f'fake GitHub: bad status payload {data!r}')
+        try:
+            self._call('status')
+        except Exception:      # noqa: BLE001  (injected fault: GitHub keeps showing the previous state of CI's context)
+            if data['context'] == self.ci_context:
+                self.ci_status_lost[sha] = (data['state'].upper(), self._tick())
+            raise
+        if data['context'] == self.ci_context:
+            self.ci_status_lost.pop(sha, None)
+        self.report_status(sha, data['context'], 'status', data['state'].upper(), by='ci')
+        self.ci_status_posts.append((sha, data['context'], data['state']))
+        return {'state': data['state'], 'context': data['context']}
 
     async def put(self, url, *a, data=None, **k):
         m = re.fullmatch(rf'/repos/{re.escape(self.repo)}/pulls/(\d+)/merge', url)
@@ -449,6 +540,10 @@ class FakeGitHub:
         verdict = [None]
         if self.monitor is not None:
             self.monitor(n, dict(data), verdict)      # CI's decision to merge is judged whether or not the request is served
+        async with _During(self.reentry, 'gh', 'merge'):
+            return self._merge(n, data, verdict)
+
+    def _merge(self, n, data, verdict):
         try:
             self._call('merge')
         except Exception as e:      # noqa: BLE001  (an injected fault: the merge is NOT performed)
@@ -488,10 +583,11 @@ class FakeGitHub:
 class FakeBatchService:
     """Ground truth of the Batch service: records of submitted batches."""
 
-    def __init__(self, batch_base_cls, clock, faults=None):
+    def __init__(self, batch_base_cls, clock, faults=None, reentry=None):
         self.records = []     # dict(id, attributes, state, complete, done_t, cancelled_by_ci)
         self._clock = clock   # callable -> tick
         self.faults = faults
+        self.reentry = reentry
         self.n_calls = 0
         base = batch_base_cls
 
@@ -507,27 +603,31 @@ class FakeBatchService:
             async def submit(self, *a, **k):
                 if self._rec is not None:
                     raise HarnessBug('batch submitted twice')
-                self._svc._call('submit')
-                self._rec = self._svc._new_record(self.attributes)
-                self._id = self._rec['id']
+                async with _During(self._svc.reentry, 'batch', 'submit'):
+                    self._svc._call('submit')
+                    self._rec = self._svc._new_record(self.attributes)
+                    self._id = self._rec['id']
                 return self
 
             async def status(self):
-                self._svc._call('bstatus')
-                r = self._rec
-                return {'id': r['id'], 'state': r['state'], 'complete': r['complete'], 'attributes': dict(r['attributes']),
-                        'n_jobs': 1, 'n_completed': int(r['complete'])}
+                async with _During(self._svc.reentry, 'batch', 'bstatus'):
+                    self._svc._call('bstatus')
+                    r = self._rec
+                    return {'id': r['id'], 'state': r['state'], 'complete': r['complete'], 'attributes': dict(r['attributes']),
+                            'n_jobs': 1, 'n_completed': int(r['complete'])}
 
             async def cancel(self):
-                self._svc._call('cancel')
-                if self._rec is not None:
-                    self._svc.finish(self._rec['id'], 'cancelled', by_ci=True)
+                async with _During(self._svc.reentry, 'batch', 'cancel'):
+                    self._svc._call('cancel')
+                    if self._rec is not None:
+                        self._svc.finish(self._rec['id'], 'cancelled', by_ci=True)
 
             async def delete(self):
-                self._svc._call('cancel')
-                if self._rec is not None:
-                    self._svc.finish(self._rec['id'], 'cancelled', by_ci=True)
-                    self._rec['deleted'] = True
+                async with _During(self._svc.reentry, 'batch', 'cancel'):
+                    self._svc._call('cancel')
+                    if self._rec is not None:
+                        self._svc.finish(self._rec['id'], 'cancelled', by_ci=True)
+                        self._rec['deleted'] = True
 
         self.FakeBatch = FakeBatch
 
@@ -597,8 +697,10 @@ class FakeBatchClient:
 
     async def list_batches(self, q=None, last_batch_id=None, limit=2 ** 64, version=None):
         self.queries.append(q)
-        self._svc._call('list')
-        for r in self._svc.match(q or ''):
+        async with _During(self._svc.reentry, 'batch', 'list'):
+            self._svc._call('list')
+            recs = self._svc.match(q or '')               # one page, computed when the request is served
+        for r in recs:
             yield self._svc.FakeBatch(self._svc, r)       # a fresh object per listing, as the real client does
 
 
